@@ -100,7 +100,9 @@ func (w *Workload) intentsFor(h int64, p *HeightPlan) []Delivery {
 	if g.Long {
 		over := map[string]int{}
 		if h <= 70 {
-			over = map[string]int{"op_reporter": 30, "deposit_report": 60, "select_reporter": 10}
+			// governance switches minting on early so that the time-based reward pool is filled when the deposit rounds
+			// (several of them closing in one block, sharing reporters) are paid
+			over = map[string]int{"op_reporter": 30, "deposit_report": 60, "select_reporter": 10, "gov_proposal": 8, "gov_vote": 30}
 		} else {
 			over = map[string]int{"claim_deposits": 60, "deposit_report": 5, "propose_dispute": 5, "request_attestations": 5}
 		}
